@@ -155,6 +155,12 @@ func c14Run(srv *c14Server, c c14Case) (res c14Result) {
 	open := 0
 	check := func(i int, st c14Step, outcome string) {
 		ctr := srv.settle() - base
+		// a stable value that disagrees is re-read for a while: on a loaded machine the server's goroutine may simply not
+		// have run yet (a leaked or double-released slot stays wrong, a late update does not)
+		for dl := time.Now().Add(3 * time.Second); ctr != open && time.Now().Before(dl); {
+			time.Sleep(20 * time.Millisecond)
+			ctr = srv.settle() - base
+		}
 		res.Obs = append(res.Obs, c14Obs{i, st.A, st.C, ctr, open, outcome, st.Counter})
 		if ctr != open {
 			res.Bad = append(res.Bad, fmt.Sprintf("step %d (%s %d): the server reports %d open connections, %d are open", i, st.A, st.C, ctr, open))
@@ -181,7 +187,7 @@ func c14Run(srv *c14Server, c c14Case) (res c14Result) {
 				return
 			}
 			bc := &c14BufConn{tcp, bufio.NewReader(tcp)}
-			tcp.SetReadDeadline(time.Now().Add(500 * time.Millisecond))
+			tcp.SetReadDeadline(time.Now().Add(5 * time.Second))
 			_, err = bc.r.Peek(1) // the server's SSH version string, or EOF when the connection was refused
 			tcp.SetReadDeadline(time.Time{})
 			if err != nil {
@@ -277,7 +283,12 @@ func c14Run(srv *c14Server, c c14Case) (res c14Result) {
 			cn.tcp.Close()
 		}
 	}
-	if ctr := srv.settle() - base; ctr != 0 {
+	ctr := srv.settle() - base
+	for dl := time.Now().Add(3 * time.Second); ctr != 0 && time.Now().Before(dl); {
+		time.Sleep(20 * time.Millisecond)
+		ctr = srv.settle() - base
+	}
+	if ctr != 0 {
 		res.Bad = append(res.Bad, fmt.Sprintf("after all connections ended the server still reports %d open connections", ctr))
 	}
 	return
@@ -385,7 +396,12 @@ func TestC14Churn(t *testing.T) {
 		if s, _ := sampleBad.Load().(string); s != "" {
 			bad = append(bad, s)
 		}
-		if n := srv.settle(); n != 0 {
+		n := srv.settle()
+		for dl := time.Now().Add(5 * time.Second); n != 0 && time.Now().Before(dl); {
+			time.Sleep(50 * time.Millisecond)
+			n = srv.settle()
+		}
+		if n != 0 {
 			bad = append(bad, fmt.Sprintf("round %d: all %d connections of the round are over, the server still reports %d open connections", r, workers*per, n))
 		}
 	}
@@ -399,7 +415,7 @@ func TestC14Churn(t *testing.T) {
 				break
 			}
 			br := bufio.NewReader(tcp)
-			tcp.SetReadDeadline(time.Now().Add(time.Second))
+			tcp.SetReadDeadline(time.Now().Add(5 * time.Second))
 			if _, err := br.Peek(1); err != nil {
 				bad = append(bad, fmt.Sprintf("after the churn connection %d of %d allowed ones was refused", i+1, max))
 				tcp.Close()
@@ -410,7 +426,12 @@ func TestC14Churn(t *testing.T) {
 		for _, c := range held {
 			c.Close()
 		}
-		if n := srv.settle(); n != 0 && len(bad) == 0 {
+		n := srv.settle()
+		for dl := time.Now().Add(5 * time.Second); n != 0 && time.Now().Before(dl); {
+			time.Sleep(50 * time.Millisecond)
+			n = srv.settle()
+		}
+		if n != 0 && len(bad) == 0 {
 			bad = append(bad, fmt.Sprintf("after the last connections ended the server reports %d open connections", n))
 		}
 	}
